@@ -14,8 +14,8 @@ Rec(ev, a) == hist' = Append(hist, [ev |-> ev, a |-> a])
 GenInit == MCInit /\ hist = <<>> /\ fresh = FALSE
 
 GenEnv ==
-    \/ \E s \in Subs : \E F \in FilterChoices(s) :
-          SubscribeCalled(s, F) /\ UNCHANGED cnt /\ Rec("Subscribe", [s |-> s, f |-> F])
+    \/ \E s \in Subs : \E F \in FilterChoices(s) : \E valid \in Validity(s) :
+          SubscribeCalled(s, F, valid) /\ UNCHANGED cnt /\ Rec("Subscribe", [s |-> s, f |-> F, valid |-> valid])
     \/ /\ Len(published) < NVaas /\ PublishCalled(VaaSeq[Len(published) + 1]) /\ UNCHANGED cnt
        /\ Rec("Publish", [v |-> VaaSeq[Len(published) + 1]])
     \/ \E s \in Subs : cnt.stall < MaxStall /\ Stall(s) /\ Bump("stall") /\ Rec("Stall", [s |-> s])
